@@ -271,6 +271,10 @@ func (c *Ctx) errflowFunc(f *ssa.Function, exc map[string]string) {
 					}
 				}
 				k := mk("R-ignored", cl)
+				if found && c.guardedInfallibleRead(f, cl) {
+					c.ok("E2.R-ignored", k, cl.Pos(), "the read cannot fail here: BitsAvailableForRead() > 0 of the same bit string is tested on the way and nothing in between touches it; the error test that follows only ends the scan")
+					return
+				}
 				report("E2.R-ignored", k, cl.Pos(), "", found, fmt.Sprintf("%s: the error of %s is tested, but it is only ever used where it is known to be nil, and after the failing side of the test the function can return at %s without a new error: the failure is ignored (inverted error test?)", fnName(f), shortQ(q), c.rel(leak)))
 			}
 		}
@@ -991,4 +995,138 @@ func (c *Ctx) fieldwiseCopy(rule string, rels ...string) int {
 		}
 	}
 	return n
+}
+
+// guardedInfallibleRead: cl is x.ReadBit() and (1) ReadBit fails only where BitsAvailableForRead() < 1 holds for
+// its receiver, (2) the call is reached only through the true side of x.BitsAvailableForRead() > 0 on the SAME
+// value x, and (3) between that test and the call nothing can change *x: only pure getters, locals, and calls on
+// an element of the same slice at a provably different index. Then the error result is nil at this call, and a
+// test of it that merely ends a scan ignores nothing.
+func (c *Ctx) guardedInfallibleRead(f *ssa.Function, cl *ssa.Call) bool {
+	if callQName(&cl.Call) != bocPath+".BitString.ReadBit" || len(cl.Call.Args) != 1 {
+		return false
+	}
+	rb := cl.Call.StaticCallee()
+	if rb == nil || len(rb.Blocks) == 0 || len(rb.Params) != 1 {
+		return false
+	}
+	availQ := bocPath + ".BitString.BitsAvailableForRead"
+	emptyFact := func(g *ssa.Function, b *ssa.BasicBlock, recv ssa.Value, wantEmpty bool) *ssa.Call {
+		for _, ft := range factsAt(g, b) {
+			bo, ok := ft.Cond.(*ssa.BinOp)
+			if !ok {
+				continue
+			}
+			gc := callOf(bo.X)
+			k, isK := constInt(bo.Y)
+			if gc == nil || !isK || callQName(&gc.Call) != availQ || gc.Call.Args[0] != recv {
+				continue
+			}
+			op := bo.Op
+			if !ft.Truth {
+				op = map[token.Token]token.Token{token.LSS: token.GEQ, token.GEQ: token.LSS, token.GTR: token.LEQ, token.LEQ: token.GTR, token.EQL: token.NEQ, token.NEQ: token.EQL}[op]
+			}
+			empty := (op == token.LSS && k == 1) || (op == token.LEQ && k == 0) || (op == token.EQL && k == 0)
+			nonEmpty := (op == token.GTR && k == 0) || (op == token.GEQ && k == 1) || (op == token.NEQ && k == 0)
+			if (wantEmpty && empty) || (!wantEmpty && nonEmpty) {
+				return gc
+			}
+		}
+		return nil
+	}
+	// (1)
+	ei := errIndex(rb.Signature)
+	nFail := 0
+	for _, r := range returnsOf(rb) {
+		if ei < 0 || !isFailureValue(rb, retVal(r, ei), r.Block()) {
+			if ei >= 0 && !isNilConst(retVal(r, ei)) {
+				return false // an error that is neither definitely nil nor definitely set
+			}
+			continue
+		}
+		nFail++
+		if emptyFact(rb, r.Block(), rb.Params[0], true) == nil {
+			return false
+		}
+	}
+	// (2)
+	recv := cl.Call.Args[0]
+	G := emptyFact(f, cl.Block(), recv, false)
+	if G == nil || !G.Block().Dominates(cl.Block()) {
+		return false
+	}
+	// (3) the blocks between the test and the call, without going round through the test again
+	cut := map[edge]bool{}
+	for _, p := range G.Block().Preds {
+		for i, sb := range p.Succs {
+			if sb == G.Block() {
+				cut[edge{p, i}] = true
+			}
+		}
+	}
+	fwd := reachableFrom(G.Block(), cut)
+	region := map[*ssa.BasicBlock]bool{}
+	for b := range fwd {
+		if b == cl.Block() || reachableFrom(b, cut)[cl.Block()] {
+			region[b] = true
+		}
+	}
+	pure := func(x *ssa.Call) bool {
+		if _, isB := x.Call.Value.(*ssa.Builtin); isB {
+			return true
+		}
+		h := x.Call.StaticCallee()
+		if h == nil || !inModule(h) || len(h.Blocks) == 0 {
+			return false
+		}
+		okp := true
+		allInstrs(h, func(_ *ssa.BasicBlock, in ssa.Instruction) {
+			switch in.(type) {
+			case *ssa.Store, *ssa.MapUpdate, *ssa.Call, *ssa.Send, *ssa.Go, *ssa.Defer:
+				okp = false
+			}
+		})
+		return okp
+	}
+	distinct := func(x *ssa.Call, at *ssa.BasicBlock) bool {
+		if x.Call.IsInvoke() || len(x.Call.Args) != 1 {
+			return false
+		}
+		a, okA := recv.(*ssa.IndexAddr)
+		b, okB := x.Call.Args[0].(*ssa.IndexAddr)
+		if !okA || !okB || a.X != b.X {
+			return false
+		}
+		p := c.newProver(f, at)
+		d := p.lin(a.Index).sub(p.lin(b.Index))
+		return p.prove(d.addConst(-1)) || p.prove(d.scale(-1).addConst(-1))
+	}
+	for b := range region {
+		started := b != G.Block()
+		for _, in := range b.Instrs {
+			if in == ssa.Instruction(G) {
+				started = true
+				continue
+			}
+			if !started {
+				continue
+			}
+			if in == ssa.Instruction(cl) {
+				break
+			}
+			switch x := in.(type) {
+			case *ssa.Call:
+				if !pure(x) && !distinct(x, b) {
+					return false
+				}
+			case *ssa.Store:
+				if _, isLocal := x.Addr.(*ssa.Alloc); !isLocal {
+					return false
+				}
+			case *ssa.MapUpdate, *ssa.Send, *ssa.Go, *ssa.Defer:
+				return false
+			}
+		}
+	}
+	return nFail >= 0
 }
